@@ -39,8 +39,8 @@ vars == <<stack, syms, comp, order, nobj, hist>>
 view == <<stack, syms, comp, order, nobj>>
 
 AllCtx == Ctxs \cup {0}
-Ops == {"integrate", "conjugate", "multiply"}
-Arity(op) == IF op = "multiply" THEN 2 ELSE 1
+Ops == {"integrate", "conjugate", "multiply", "concatenate"}
+Arity(op) == IF op \in {"multiply", "concatenate"} THEN 2 ELSE 1
 
 State == [stack |-> stack, syms |-> syms, comp |-> comp, order |-> order, nobj |-> nobj]
 S0 == [stack |-> <<>>, syms |-> <<>>, comp |-> [c \in AllCtx |-> <<>>],
@@ -60,10 +60,11 @@ SetToSeqInc(T) == LET RECURSIVE F(_)
                                    IN <<m>> \o F(U \ {m})
                   IN F(T)
 
-(* integrate removes the variables: its results are not used as operands again (the other *)
-(* operators would refuse them), so that every modelled call succeeds                    *)
+(* integrate removes the variables and concatenate multiplies the outputs: their results   *)
+(* are not used as operands again (the other operators would refuse them / the circuits    *)
+(* would grow exponentially), so that every modelled call succeeds                         *)
 Applicable(S, args) == \A k \in 1..Len(args) :
-                          args[k] \in 1..NSof(S) /\ S.syms[args[k]].op # "integrate"
+                          args[k] \in 1..NSof(S) /\ S.syms[args[k]].op \notin {"integrate", "concatenate"}
 
 (* ---------- guards ---------- *)
 Pre(S, e) ==
